@@ -275,6 +275,9 @@ func newC09Room(ver gmsl.RoomVersion) *c09Room {
 		"public_keys": []interface{}{map[string]interface{}{"public_key": spec.Base64Bytes(pub), "key_validity_url": "https://id/valid"}}}, nil)
 
 	// un-needed state of the same room
+	r.extras = append(r.extras, w.mk(spec.MRoomThirdPartyInvite, uBob, sp(""), map[string]interface{}{"display_name": "x", "key_validity_url": "https://id/valid",
+		"public_key":  spec.Base64Bytes(pub),
+		"public_keys": []interface{}{map[string]interface{}{"public_key": spec.Base64Bytes(pub), "key_validity_url": "https://id/valid"}}}, nil))
 	r.extras = append(r.extras, w.mk("m.room.topic", uAlice, sp(""), map[string]string{"topic": "t"}, nil))
 	r.extras = append(r.extras, w.mk("m.room.name", uAlice, sp(""), map[string]string{"name": "n"}, nil))
 	r.extras = append(r.extras, w.mk("m.room.history_visibility", uAlice, sp(""), map[string]string{"history_visibility": "shared"}, nil))
@@ -333,6 +336,18 @@ func newC09Room(ver gmsl.RoomVersion) *c09Room {
 		var sm map[string]interface{}
 		_ = json.Unmarshal(sj2, &sm)
 		member("3pi-invite-grace-signed", uGrace, uBob, map[string]interface{}{"membership": "invite",
+			"third_party_invite": map[string]interface{}{"display_name": "x", "signed": sm}}, nil)
+	}
+	// a third-party invite whose token is empty: StateNeededForAuth names no third_party_invite
+	// tuple for it, the check looks up the tuple with the empty state key all the same
+	signedE := map[string]interface{}{"mxid": uGrace, "token": ""}
+	sje, _ := json.Marshal(signedE)
+	if sj2, err := gmsl.SignJSON("id", "ed25519:0", c09SignKey, sje); err == nil {
+		var sm map[string]interface{}
+		_ = json.Unmarshal(sj2, &sm)
+		member("3pi-invite-grace-empty-token", uGrace, uBob, map[string]interface{}{"membership": "invite",
+			"third_party_invite": map[string]interface{}{"display_name": "x", "signed": sm}}, nil)
+		member("join-dave-empty-token-via-alice", uDave, uDave, map[string]interface{}{"membership": "join", "join_authorised_via_users_server": uAlice,
 			"third_party_invite": map[string]interface{}{"display_name": "x", "signed": sm}}, nil)
 	}
 	member("3pi-invite-grace-unsigned", uGrace, uBob, map[string]interface{}{"membership": "invite",
